@@ -153,6 +153,26 @@ def parseNest (tok : String) : Option Nest :=
     some { all := rt == "*", routed := if rt == "*" then [] else ((rt.splitOn "+").filterMap parseTok).map lookupKey, rw := rw }
   | _ => none
 
+/-- `S<stage>/<tgt>[/<routed>]` (outer pipeline) / `I<stage>/<tgt>` (nested pipeline): the stage at which the
+body fails for the whole delivery (`-` none; body checks `cg cs cr`, `ar` applyResults, `RewriteBody` `mg ms mr`) and
+the kind of target: `p` per-recipient results, `a` none and `Body` succeeds, `A` none and `Body` fails; routed = the
+per-address destination blocks that lead to the a/A target (absent or `*`: every direct recipient). -/
+structure Plan where
+  stage : String := "-"
+  tgt : String := "p"
+  all : Bool := true
+  routed : List Nat := []
+
+def parsePlan (tag : String) (tok : String) : Option Plan :=
+  if !tok.startsWith tag then none else
+  match (String.ofList (tok.toList.drop 1)).splitOn "/" with
+  | [st, tg] => if ["p", "a", "A"].contains tg then some { stage := st, tgt := tg } else none
+  | [st, tg, rt] =>
+    if !["p", "a", "A"].contains tg then none else
+    if rt == "*" then some { stage := st, tgt := tg }
+    else some { stage := st, tgt := tg, all := false, routed := ((rt.splitOn "+").filterMap parseTok).map lookupKey }
+  | _ => none
+
 def handle : List String → String
   | ["remote", utf8, txs] =>
     match (txs.splitOn ";").mapM parseTx with
@@ -183,30 +203,52 @@ def handle : List String → String
     -- a nested pipeline behind the outer one; a `P…` token (OriginalRcpts table of a pipeline the message
     -- passed earlier) is deliberately NOT an input of the model: it takes no part in the translation
     let nest := (rest.drop 1).findSome? parseNest
-    -- the table of the outer delivery as built by AddRcpt: for each rewritten effective address, last writer wins
-    let origO : List (Nat × Nat) := (entries.flatMap (fun e => e.2.map (fun x => (x, e.1)))).reverse
-    -- (client, outer effective recipient) in AddRcpt order (an unrewritten client recipient is its own
-    -- effective recipient); numbers below 10 are client-supplied addresses, also when they occur as a rewrite
+    let outerPlan : Plan := ((rest.drop 1).findSome? (parsePlan "S")).getD {}
+    let innerPlan : Plan := ((rest.drop 1).findSome? (parsePlan "I")).getD {}
+    -- the AddRcpt calls: client-supplied address and its effective addresses (an unrewritten client recipient is
+    -- its own effective recipient); numbers below 10 are client-supplied addresses, also when they occur as a rewrite
     -- result; a key is an address STRING (another spelling of the same mailbox is another key), the
-    -- same client token may occur several times (the client sent the address twice)
-    let paths : List (Nat × Nat) := entries.flatMap (fun e => (if e.2.isEmpty then [e.1] else e.2).map (fun x => (e.1, x)))
+    -- same client token may occur several times (the client sent the address twice), several client
+    -- recipients may have the same effective address
+    let rs : List PipeRcpt := entries.map (fun e => (e.1, if e.2.isEmpty then [e.1] else e.2))
+    -- the table of the outer delivery as built by AddRcpt: for each rewritten effective address, last writer wins
+    let origO : List (Nat × Nat) := pipeTable rs
+    -- (client, outer effective recipient) in AddRcpt order
+    let paths : List (Nat × Nat) := rs.flatMap (fun e => e.2.map (fun x => (e.1, x)))
     -- the destination block is chosen before its own modifiers run: placement r = by the client-supplied address
+    let blockKey (p : Nat × Nat) : Nat := lookupKey (if place == "r" then p.1 else p.2)
+    -- (per-address destination blocks come before the default block)
+    let altBlock (p : Nat × Nat) : Bool := outerPlan.tgt != "p" && !outerPlan.all && outerPlan.routed.contains (blockKey p)
     let routed (p : Nat × Nat) : Bool := match nest with
       | none => false
-      | some n => n.all || n.routed.contains (lookupKey (if place == "r" then p.1 else p.2))
+      | some n => n.routed.contains (blockKey p) || (n.all && !altBlock p)
+    let direct (p : Nat × Nat) : Bool := outerPlan.tgt != "p" && (outerPlan.all || outerPlan.routed.contains (blockKey p))
     let innerEffs (x : Nat) : List Nat := match nest with
       | none => [x]
       | some n => match n.rw.find? (fun e => e.1 == x) with
         | some e => e.2
         | none => [x]
     -- the table of the nested delivery: what its AddRcpt calls recorded
-    let origI : List (Nat × Nat) :=
-      (paths.flatMap (fun p => if routed p then (innerEffs p.2).filterMap (fun y => if y != p.2 then some (y, p.2) else none) else [])).reverse
-    let sts := paths.flatMap (fun p =>
-      if routed p then
-        (innerEffs p.2).map (fun y => tokName (translateNested origO origI y) ++ "=" ++ okStr (!failIds.contains y))
-      else
-        [tokName (translate origO p.2) ++ "=" ++ okStr (!failIds.contains p.2)])   -- statusCollector.SetStatus: ONE look-up
+    let origI : List (Nat × Nat) := pipeTable ((paths.filter routed).map (fun p => (p.2, innerEffs p.2)))
+    let showSt (s : Nat × Bool) : String := tokName s.1 ++ "=" ++ okStr s.2
+    let sts :=
+      if outerPlan.stage != "-" then
+        -- setStatusAll: every entry of every delivery's `recipients`, as supplied, untranslated
+        (pipeGenerated rs).map showSt
+      else paths.flatMap (fun p =>
+        if routed p then
+          if innerPlan.stage != "-" || innerPlan.tgt == "A" then
+            -- the NESTED delivery generates the failures for the addresses it was given (once per inner effective
+            -- recipient); they pass the outer delivery's collector: ONE look-up
+            (pipeGenerated [(p.2, innerEffs p.2)]).map (fun s => showSt (translate origO s.1, s.2))
+          else if innerPlan.tgt == "a" then []      -- no per-recipient results, Body succeeded: silence
+          else
+            (innerEffs p.2).map (fun y => tokName (translateNested origO origI y) ++ "=" ++ okStr (!failIds.contains y))
+        else if direct p then
+          -- Body error of a target without per-recipient results: `delivery.recipients`, untranslated
+          if outerPlan.tgt == "A" then (pipeGenerated [(p.1, [p.2])]).map showSt else []
+        else
+          [tokName (translate origO p.2) ++ "=" ++ okStr (!failIds.contains p.2)])   -- statusCollector.SetStatus: ONE look-up
     ",".intercalate (sortStr sts)
   | _ => "bad-op"
 
